@@ -291,6 +291,9 @@ def halfopen_ranges(P, R, rule):
                     continue
                 if const_of(y) is not None:
                     continue  # sentinel test (STAMP_MIN / STAMP_MAX)
+                if y is not None and y.get("k") == "MemberExpr" and y.get("n") in ("prev", "next") and \
+                        (fn.tu.recs_by_id.get(y.get("rec")) or {}).get("name") == "zrng_s":
+                    continue  # the two bounds of a range compared with each other: an emptiness test, no instant involved
                 op = n["op"] if side == 1 else FLIP.get(n["op"], n["op"])   # normalised: y OP field
                 nsites += 1
                 R.saw(fn)
@@ -333,3 +336,73 @@ def byte_readers(P, R, rule):
             R.finding(rule, fn, "byte/shift table", "%s combines bytes with (index, shift) = %s; big-endian needs %s"
                       % (name, sorted(pairs), exp))
     return len(want)
+
+
+# ----------------------------------------------------------------------------- validity of the cached range
+def cache_validity(P, R, rule):
+    """The lookup cache of a zone starts out zeroed (zif_open's allocation), which is the empty range [0, 0) of transition 0: it
+    answers nothing (the hit test fails) but it is not a range of the table either.  Two consequences are checked:
+     (a) __offs may narrow the search with the cached transition number only when the cache holds a range -- every read of
+         cache.trno is guarded by a comparison of the cache's two bounds with each other (an emptiness test);
+     (b) __find_zrng may hand out (and so cache) the whole time line [MIN, MAX) only for a zone without transitions: in the branch
+         that sets prev to the smallest stamp, an assignment of the largest stamp to next is guarded by a test of the number of
+         transitions -- `not found in the narrowed part` must not become `the same offset for ever'."""
+    from core import walk
+    tu = P.tu("tzraw.c")
+    fo, fz = tu.func("__offs"), tu.func("__find_zrng")
+    if fo is None or fz is None:
+        raise AnalysisBroken("%s: __offs / __find_zrng vanished" % rule)
+    R.saw(fo)
+    R.saw(fz)
+    n = 0
+
+    def is_bound(e, which=("prev", "next")):
+        e = strip(e)
+        return e is not None and e.get("k") == "MemberExpr" and e.get("n") in which and \
+            (fo.tu.recs_by_id.get(e.get("rec")) or {}).get("name") == "zrng_s"
+    for x in fo.walk():
+        if x.get("k") != "MemberExpr" or x.get("n") != "trno":
+            continue
+        b = strip(x["c"][0]) if x.get("c") else None
+        if b is None or b.get("k") != "MemberExpr" or b.get("n") != "cache":
+            continue
+        n += 1
+        guarded = False
+        for g in guards_of(fo, x):
+            c = strip(g.get("cond"))
+            if c is not None and c.get("k") == "BinaryOperator" and c.get("op") in ("<", "<=", ">", ">=", "==", "!=") and \
+                    is_bound(c["c"][0]) and is_bound(c["c"][1]) and strip(c["c"][0]).get("n") != strip(c["c"][1]).get("n"):
+                guarded = True
+        site = "__offs: search narrowed with cache.trno at %s" % fo.where(x)
+        if guarded:
+            R.ob(rule, site + " only when the cache holds a range", True)
+        else:
+            R.finding(rule, fo, "narrowing with cache.trno in `%s`" % expr_text(fo.parent(x))[:40], "the search is narrowed with the cached "
+                      "transition number without a test that the cache holds a range: the zeroed cache of a freshly opened zone is the empty "
+                      "range [0, 0) of transition 0, so the first look-up of an instant >= 0 skips transition 0 and one < 0 searches nothing; "
+                      "the miss is then cached (see (b)) and answers every later look-up", x)
+    # (b)
+    smin = [x for x in fz.walk() if x.get("k") == "BinaryOperator" and x.get("op") == "=" and strip(x["c"][0]).get("k") == "MemberExpr"
+            and strip(x["c"][0]).get("n") == "prev" and const_of(x["c"][1]) is not None and const_of(x["c"][1]) < 0]
+    if not smin:
+        raise AnalysisBroken("%s: the `before the first transition' branch of __find_zrng was not recognised" % rule)
+    for pm in smin:
+        # the branch (then/else of the nearest if) the assignment sits in
+        br, par = pm, fz.parent(pm)
+        while par is not None and par.get("k") != "IfStmt":
+            br, par = par, fz.parent(par)
+        if par is None:
+            raise AnalysisBroken("%s: unguarded `prev = smallest stamp' in __find_zrng" % rule)
+        for x in walk(br):
+            if x.get("k") == "BinaryOperator" and x.get("op") == "=" and strip(x["c"][0]).get("k") == "MemberExpr" and \
+                    strip(x["c"][0]).get("n") == "next" and const_of(x["c"][1]) is not None and const_of(x["c"][1]) > 0:
+                n += 1
+                ok = any("ntr" in expr_text(strip(g.get("cond"))) for g in guards_of(fz, x) if g.get("cond") is not None)
+                if ok:
+                    R.ob(rule, "__find_zrng: the whole time line is handed out only for a zone without transitions", True)
+                else:
+                    R.finding(rule, fz, "range [MIN, MAX) at %s" % fz.where(x), "a search that finds nothing hands out the whole time line "
+                              "[smallest stamp, largest stamp) whether or not the zone has transitions; __offs caches it, and every later "
+                              "look-up on that zone gets this one offset: `dconv --zone Europe/Berlin 1960-06-01T00:00:00 "
+                              "2012-06-01T00:00:00` prints +01:00 for the second instant", x)
+    return n
